@@ -210,8 +210,8 @@ def gen_histories(ctx):
         allr = ctx.tlc("MC_LspIncr", "MC_LspIncr_all", workers=1, count=False, timeout=1500)
         pool += [("all", r) for r in allr.printed("REPLAY")]
     sims = [("MC_LspIncr_sim", 11, 600), ("MC_LspIncr_simc", 13, 600)] if ctx.quick else \
-           [("MC_LspIncr_sim", 11, 2500), ("MC_LspIncr_sim3", 12, 2500), ("MC_LspIncr_simc", 13, 2500),
-            ("MC_LspIncr_simc6", 14, 1500)]
+           [("MC_LspIncr_sim", 11, 800), ("MC_LspIncr_sim3", 12, 500), ("MC_LspIncr_simc", 13, 600),
+            ("MC_LspIncr_simc6", 14, 300)]
     for cfg, seed, num in sims:
         r = ctx.tlc("MC_LspIncr", cfg, workers=1, simulate=num, depth=40, tlc_seed=seed, count=False,
                     name="%s-%d" % (cfg, seed), timeout=1500)
@@ -231,12 +231,16 @@ def gen_histories(ctx):
 
 def run(ctx):
     # 1. exhaustive model check of the rule
-    mc = ctx.tlc("LspIncr", "MC_LspIncr" if ctx.quick else "MC_LspIncr4", workers=4, coverage=True, timeout=1700)
-    if mc.violated:
-        ctx.report("model:" + mc.violated, "LspIncr.tla violates its own invariant %s (a disagreement between the "
-                   "transcribed caching rule and a fresh compilation that no named mechanism explains, or a "
-                   "structural fact about the rule)" % mc.violated, {"tlc": mc.counterexample()[:6000]})
-    cov = mc.coverage_actions()
+    mcs = [ctx.tlc("LspIncr", "MC_LspIncr", workers=4, coverage=True, timeout=1700)]
+    if not ctx.quick:
+        mcs.append(ctx.tlc("LspIncr", "MC_LspIncr4", workers=4, timeout=1700))
+        mcs.append(ctx.tlc("LspIncr", "MC_LspIncr3deep", workers=4, timeout=1700, xmx="6g"))
+    for mc in mcs:
+        if mc.violated:
+            ctx.report("model:" + mc.violated, "LspIncr.tla violates its own invariant %s (a disagreement between "
+                       "the transcribed caching rule and a fresh compilation that no named mechanism explains, or a "
+                       "structural fact about the rule)" % mc.violated, {"tlc": mc.counterexample()[:6000]})
+    cov = mcs[0].coverage_actions()
     never = [a for a in ("Edit", "Reopen", "CompileOk", "CompileCancelled", "CompileFailed", "Crash", "Restart")
              if a in cov and cov[a][1] == 0]
     if never:
@@ -335,7 +339,8 @@ def run(ctx):
         "mechanisms_reachable_in_model": sorted(ce), "mechanisms_confirmed_on_real_server": sorted(confirmed),
         "records_rejected": len(rejected), "wait_for_parsing_timeouts": wfp,
         "binding_selftest_rejected_corrupted_record": selftest,
-        "constants": {"exhaustive": "MC_LspIncr.cfg" if ctx.quick else "MC_LspIncr4.cfg"},
+        "constants": {"exhaustive": ["MC_LspIncr.cfg"] if ctx.quick else
+                      ["MC_LspIncr.cfg", "MC_LspIncr4.cfg", "MC_LspIncr3deep.cfg"]},
         "action_coverage": cov,
         "samples": samples,
     }, assumptions=[
@@ -349,6 +354,26 @@ def run(ctx):
 
 
 def replay(path):
+    """Print a violation file: the history, both real observations and the model's expectation."""
     v = json.load(open(path))
-    print(json.dumps(v, indent=1)[:20000])
+    print("property C26  key:", v["key"])
+    print(v["what"])
+    rp = v["replay"]
+    h = rp.get("history") or (rp.get("confirmed_on_real_server") or {}).get("history") or rp.get("model_counterexample")
+    if h:
+        print("history", h["id"])
+        for i, s in enumerate(h["steps"]):
+            print("  %d %-13s %-4s %-7s at=%s  %s" % (i + 1, s["act"], s["m"], s.get("chg", ""), s.get("at", 0),
+                  {m: [(x["n"], x["p"], x["r"]["m"], x["r"]["n"], x["r"]["a"]) for x in t["items"]]
+                   for m, t in s["text"].items()}))
+    recs = [rp["record"]] if "record" in rp else rp.get("records", [])
+    for r in recs:
+        print("step %d %s %s:" % (r["k"], r["act"], r["m"]))
+        for side in ("incr", "fresh"):
+            o = r.get(side, {})
+            print("   %-5s status=%s failed=%s diags=%s" % (side, o.get("status"), o.get("failed"),
+                  [(d["m"], d["line"], d["k"]) for d in o.get("diags", [])]))
+            print("         syms=%s refs=%s" % (o.get("syms"), o.get("refs")))
+    for e in rp.get("model_expectation", []):
+        print("   model:", e[:1500])
     return 0
